@@ -106,6 +106,7 @@ func diagCmd(args []string) int {
 				out[i].CPos = readPos()
 				out[i].PRepr = fmt.Sprintf("p%d", next())
 				out[i].CRepr = fmt.Sprintf("c%d", next())
+				out[i].Site = readPos()
 			}
 			return out
 		}
@@ -119,6 +120,7 @@ func diagCmd(args []string) int {
 			idByPos[fmt.Sprintf("%d:%d", f, l)] = id
 			cs[i].Nil = readNodes(id, false)
 			cs[i].Nonnil = readNodes(id, true)
+			cs[i].Src = readPos()
 		}
 		ds, panicked := diagnostic.VerifDiagnostics(cs, ranges, grouping, excl)
 		if panicked != "" {
